@@ -1000,6 +1000,8 @@ class Client():
         if self.redirects:
             redirect = self.redirects[-1]
             location = redirect['headers'].get('location')
+            if not location:
+                raise httping.InvalidURL("Redirect without Location header")
             path, sep, query = location.partition('?')
             path = unquote(path)
             if sep:
@@ -1008,6 +1010,9 @@ class Client():
                 location = path
             splits = urlsplit(location)
             hostname = splits.hostname
+            if not hostname:
+                raise httping.InvalidURL("Redirect Location without host "
+                                         "'{0}'".format(location))
             port = splits.port
             scheme = splits.scheme
             scheme = 'https' if scheme.lower() == 'https' else 'http'
@@ -1133,7 +1138,19 @@ class Client():
                                      ])
                     if self.respondent.redirectable and self.respondent.redirectant:
                         self.redirects.append(copy.copy(response))
-                        self.redirect()
+                        try:
+                            self.redirect()
+                        except (httping.HTTPException, ValueError, OSError) as ex:
+                            # unusable Location (missing, no host, bad port or
+                            # ip literal, unresolvable host) so give up redirecting
+                            # and report the redirect response itself as errored
+                            self.respondent.redirectant = False
+                            response['errored'] = True
+                            response['error'] = str(ex)
+                            response['redirects'] = copy.copy(self.redirects)
+                            self.redirects = []
+                            self.responses.append(response)
+                            self.waited = False
                     else:
                         if self.redirects:
                             response['redirects'] = copy.copy(self.redirects)
